@@ -45,7 +45,7 @@ def run_cases(chk, binp, cases, pf_ok, pf):
 def workloads(binp, seed, n):
     rng = random.Random(seed)
     wl = list(P.FORMAT_WORKLOADS)
-    sc, _ = P.call_pool(binp, seed, 3000, 1)
+    sc, _ = P.call_pool(binp, seed, 20000 if n <= 250 else 200000, 1)
     fmt = [c for c in sc if '"format"' in json.dumps(c["schema"]) and not c.get("noformats") and not c.get("usenumber")]
     rng.shuffle(fmt)
     return wl + fmt[:n]
